@@ -100,10 +100,15 @@ fn is_moderately_nested(cursor: Cursor<'_>) -> bool {
     const LIMIT: usize = 64;
 
     let mut levels = vec![cursor];
+    // Prefix operators (`!!!..`, `&&&..`, also `&'a &'a ..` in a type).
     let mut run = 0;
-    // Closure heads (`|a| |b| ..`) and assignments (`a = b = ..`) nest to the right without
-    // any delimiter.
+    // Prefix keywords taking an operand (`return return ..`, `break break ..`).
+    let mut keyword_run = 0;
+    // Closure heads (`|a| |b| ..`), assignments (`a = b = ..`) and arrows (`fn() -> fn() -> ..`)
+    // nest to the right without any delimiter, up to the next `,` or `;`.
     let mut right_nesting = 0;
+    let mut after_quote = false;
+    let mut after_joint_minus = false;
     while let Some(cursor) = levels.pop() {
         let Some((tt, next)) = cursor.token_tree() else {
             continue;
@@ -114,26 +119,41 @@ fn is_moderately_nested(cursor: Cursor<'_>) -> bool {
                 if let Some((inside, _, _, _)) = cursor.any_group() {
                     levels.push(inside);
                 }
-                run = 0;
+                (run, keyword_run) = (0, 0);
+                (after_quote, after_joint_minus) = (false, false);
             }
             proc_macro2::TokenTree::Punct(p) => {
                 run += 1;
-                if matches!(p.as_char(), '|' | '=') {
-                    right_nesting += 1;
+                keyword_run = 0;
+                match p.as_char() {
+                    '|' | '=' => right_nesting += 1,
+                    '>' if after_joint_minus => right_nesting += 1,
+                    ',' | ';' => right_nesting = 0,
+                    _ => {}
                 }
+                after_quote = p.as_char() == '\'';
+                after_joint_minus =
+                    p.as_char() == '-' && p.spacing() == proc_macro2::Spacing::Joint;
             }
-            // So do the keywords taking an operand (`return return ..`, `else if .. else if ..`).
             proc_macro2::TokenTree::Ident(i)
-                if i == "return" || i == "break" || i == "else" || i == "yield" =>
+                if i == "return" || i == "break" || i == "yield" =>
             {
-                right_nesting += 1;
+                keyword_run += 1;
                 run = 0;
+                (after_quote, after_joint_minus) = (false, false);
             }
-            // `&mut &mut ..`, `&raw const ..` are still one run of prefix operators.
-            proc_macro2::TokenTree::Ident(i) if i == "mut" || i == "raw" || i == "const" => {}
-            _ => run = 0,
+            // A lifetime doesn't end a run of `&`s.
+            proc_macro2::TokenTree::Ident(_) if after_quote => after_quote = false,
+            _ => {
+                (run, keyword_run) = (0, 0);
+                (after_quote, after_joint_minus) = (false, false);
+            }
         }
-        if levels.len() > LIMIT || run > LIMIT || right_nesting > 4 * LIMIT {
+        if levels.len() > LIMIT
+            || run > LIMIT
+            || keyword_run > LIMIT
+            || right_nesting > 4 * LIMIT
+        {
             return false;
         }
     }
